@@ -50,9 +50,7 @@ def _classes():
     if _CLS:
         return _CLS
     from . import acnsim_replay as ar
-    from acnportal.acnsim import Simulator
-    from acnportal.acnsim.events import EventQueue, PluginEvent, RecomputeEvent
-    from acnportal.acnsim.models import EV, EVSE, DeadbandEVSE, FiniteRatesEVSE
+    from acnportal.acnsim.models import EVSE, DeadbandEVSE, FiniteRatesEVSE
     from acnportal.acnsim.network import Current
 
     def build_network(start, ana, var):
@@ -91,26 +89,15 @@ def _classes():
             self.integral_mismatch = None
             super().__init__(bhv, var)
 
-        def _build(self):            # as Replay._build, on the network Analysis.tla describes
-            st, var = self.start, self.var
-            self.net = build_network(st, self.ana, var)
-            self.net._verif_cb = self.on_post_charging
-            self.evs = {}
-            events = []
-            order = list(range(len(st["sess"])))
-            if var.sess_perm:
-                order = [order[i] for i in var.sess_perm if i < len(order)] + [i for i in order if i not in var.sess_perm]
-            for i0 in order:
-                x = st["sess"][i0]
-                ev = EV(x["arr"], x["dep"], x["req"] / KWH, ar.sid(x["st"]), ar.vid(i0 + 1), ar.make_battery(x, var))
-                self.evs[i0 + 1] = ev
-                events.append(PluginEvent(x["arr"], ev))
-            events += [RecomputeEvent(r) for r in st["recomp"]]
-            if var.sess_perm:
-                var.rng.shuffle(events)
-            self.sched = ar.ScriptedScheduler(self, st["mr"])
-            self.sim = Simulator(self.net, self.sched, EventQueue(events), ar.START, period=self.T, verbose=False,
-                                 store_schedule_history=var.store_hist)
+        def _build(self):
+            # Replay._build (sessions, events, scheduler, Simulator) on the network Analysis.tla describes:
+            # its call of the module-level build_network is redirected for the duration of the call.
+            orig = ar.build_network
+            ar.build_network = lambda st, var, cls=None: build_network(st, self.ana, var)
+            try:
+                super()._build()
+            finally:
+                ar.build_network = orig
 
         def compare_final(self, r):
             # Replay's last C02 comparison calls acnsim.aggregate_power: that one is this property's business
